@@ -71,7 +71,7 @@ def gen_value(rng, depth):
         return ["decimal", rng.choice(["0", "1.50", "-3.14159", "1E+30", "NaN", "Infinity", "0.000000001"])]
     if r < 0.7:
         return ["list", [gen_value(rng, depth - 1) for _ in range(rng.choice([0, 0, 1, 2, 3, 4]))]]
-    level = rng.randint(0, 4)          # 4 = IterNode (a Node1 that is iterable)
+    level = rng.randint(0, 5)          # 4 = IterNode (a Node1 that is iterable), 5 = StaticNode (static _from_json)
     node = ["node", level, rng.choice(STRINGS), gen_value(rng, depth - 1),
             [gen_value(rng, depth - 2) for _ in range(rng.choice([0, 0, 1, 2]))]]
     if level in (2, 3):
@@ -116,7 +116,7 @@ def materialise(v, jm):
         return getattr(jm, v[1])(*v[2:2 + n])
     if k == "list":
         return [materialise(x, jm) for x in v[1]]
-    cls = [jm.Node0, jm.Node1, jm.Node2, jm.Node3, jm.IterNode][v[1]]
+    cls = [jm.Node0, jm.Node1, jm.Node2, jm.Node3, jm.IterNode, jm.StaticNode][v[1]]
     kw = {"name": v[2], "payload": materialise(v[3], jm), "friends": [materialise(x, jm) for x in v[4]]}
     if v[1] in (2, 3):
         kw["level"] = v[5]
